@@ -189,6 +189,16 @@ func builtinIntrinsics() map[string]intrinsic {
 	m["@verifImplies"] = func(p *Path, fr *frame, pos token.Pos, args []Value) Value {
 		return p.st.Implies(args[0].(*Term), args[1].(*Term))
 	}
+	// verifInitPkg("import/path"): force the initialiser of a package (initialisation is lazy otherwise)
+	m["@verifInitPkg"] = func(p *Path, fr *frame, pos token.Pos, args []Value) Value {
+		path := p.concString(args[0], "package path")
+		pk := p.eng.pkgByPath[path]
+		if pk == nil {
+			p.unsupported("verifInitPkg: package %s not loaded", path)
+		}
+		p.ensureInit(pk)
+		return nil
+	}
 	m["@verifSymbolic"] = func(p *Path, fr *frame, pos token.Pos, args []Value) Value {
 		return p.st.True
 	}
@@ -295,6 +305,8 @@ func builtinIntrinsics() map[string]intrinsic {
 	m["(*sync.Pool).Put"] = nop
 	m["runtime.Gosched"] = func(p *Path, fr *frame, pos token.Pos, args []Value) Value { p.yield(fr); return nil }
 	m["runtime.KeepAlive"] = nop
+	m["runtime.GOMAXPROCS"] = func(p *Path, fr *frame, pos token.Pos, args []Value) Value { return p.st.BV(64, 16) }
+	m["runtime.NumCPU"] = func(p *Path, fr *frame, pos token.Pos, args []Value) Value { return p.st.BV(64, 16) }
 	m["runtime.SetFinalizer"] = nop
 
 	// ---- sync/atomic (sequentially consistent, one goroutine runs at a time) ----
